@@ -141,6 +141,41 @@ def opExactStage : P String := do
   let fd := ds.flatten.map (fun o => match o with | some d => fb d | none => "inf")
   pure (join (fi ++ fd))
 
+/-- the scheduling stage: `schedule <n> <m> <m weights>` → the periods of the kept edges. -/
+def opSchedule : P String := do
+  let n ← pNat
+  let m ← pNat
+  let ws ← pMany m pFloat
+  pure (join ((Schedule.schedule n ws).map fb))
+
+/-- `unique=True` on sparse rows: `uniquerows <nrows> { <len> (col val)* }` → for every row the index of the
+    first row with the same key (`index[inverse[i]]` of `csr_unique`). -/
+def opUniqueRows : P String := do
+  let n ← pNat
+  let rows ← pMany n (do
+    let len ← pNat
+    pMany len (do let c ← pNat; let v ← pFloat; pure (c, v)))
+  let keys := rows.map (fun r => (SparseRow.key r).map (fun p => (p.1, p.2.toBits)))
+  let rep := keys.map (fun k => keys.findIdx (fun k' => k' == k))
+  pure (join (rep.map toString))
+
+/-- `truncatek <n> <k>` → effective number of neighbours. -/
+def opTruncateK : P String := do
+  let n ← pNat; let k ← pNat
+  pure (toString (Pipeline.truncateK n k))
+
+/-- `expansion <maxCoord> <maxAbs>` → the `noisy_scale_coords` factor. -/
+def opExpansion : P String := do
+  let mc ← pFloat; let ma ← pFloat
+  pure (fb (Pipeline.expansion mc ma))
+
+/-- `rescale10 <min> <max> <m> <m values>` → one embedding axis rescaled to `[0, 10]`. -/
+def opRescale10 : P String := do
+  let mn ← pFloat; let mx ← pFloat
+  let m ← pNat
+  let xs ← pMany m pFloat
+  pure (join (xs.map (fun x => fb (Pipeline.rescale10 mn mx x))))
+
 /-- `symmetrize <r> COO` -/
 def opSym : P String := do
   let r ← pFloat
@@ -515,6 +550,11 @@ def dispatch (op : String) : P String :=
   | "graph" => opGraph
   | "sym" => opSym
   | "exactstage" => opExactStage
+  | "schedule" => opSchedule
+  | "truncatek" => opTruncateK
+  | "expansion" => opExpansion
+  | "rescale10" => opRescale10
+  | "uniquerows" => opUniqueRows
   | "relations" => opRelations
   | "api" => opApi
   | "metric" => opMetric
